@@ -101,7 +101,7 @@ func rawFieldName(v ssa.Value) (string, string) {
 			continue
 		case *ssa.Call:
 			// AtomBool.Get(&x.f) → the field f
-			if g := Callee(&x.Call); g != nil && g.Name() == "Get" && len(x.Call.Args) == 1 {
+			if g := Callee(&x.Call); g != nil && (g.Name() == "Get" || IsAtomGet(g)) && len(x.Call.Args) == 1 {
 				v = x.Call.Args[0]
 				continue
 			}
@@ -171,7 +171,7 @@ func (r *roleCtx) setBy(pkg *ssa.Package, recvType, fieldType, m string) string 
 func uniqueByType(st *types.Struct, taken map[string]bool, pred func(types.Type) bool) string {
 	found, n := "", 0
 	for _, f := range flatFields(st, 0) {
-		if taken[f.Name()] || f.Embedded() {
+		if taken[f.Name()] {
 			continue
 		}
 		if pred(f.Type()) {
@@ -505,9 +505,13 @@ func ResolveRoles(p *Prog) {
 			return
 		}
 		if len(found) == 0 {
-			// the helper as a plain function whose first parameter is the former receiver
+			// the helper as a plain function whose first parameter is the former receiver, or as a method of a grouping
+			// struct embedded in the type (typeName maps the group to its owner)
 			for _, f := range p.Funcs {
-				if f.Parent() == nil && f.Pkg == pkg && f.Signature.Recv() == nil && f.Object() != nil && !f.Object().Exported() && len(f.Params) > 0 && typeName(f.Params[0].Type()) == tn && pred(f) {
+				if f.Parent() == nil && f.Pkg == pkg && f.Object() != nil && !f.Object().Exported() && len(f.Params) > 0 && typeName(f.Params[0].Type()) == tn && pred(f) {
+					if f.Signature.Recv() != nil && rawTypeName(f.Signature.Recv().Type()) == tn {
+						continue
+					}
 					found = append(found, f)
 				}
 			}
